@@ -435,7 +435,13 @@ class Transformed:
     c = self.counter
     if self.kind == 'jit':
       fn = spec['fn']
-      self.f = nnx.jit(lambda *a: interp(fn, a, c))
+      wrap = spec.get('wrap')  # the results nested in a list / dict (a JAX pytree around the returned graph nodes)
+      if wrap == 'list':
+        self.f = nnx.jit(lambda *a: [list(interp(fn, a, c))])
+      elif wrap == 'dict':
+        self.f = nnx.jit(lambda *a: {'out': {str(i): r for i, r in enumerate(interp(fn, a, c))}})
+      else:
+        self.f = nnx.jit(lambda *a: interp(fn, a, c))
     elif self.kind == 'cached_partial':
       fn = spec['fn']
       self.jf = nnx.jit(lambda *a: interp(fn, a, c))
@@ -445,7 +451,13 @@ class Transformed:
     spec, c = self.spec, self.counter
     k = self.kind
     if k == 'jit':
-      return self.f(*args)
+      out = self.f(*args)
+      wrap = spec.get('wrap')
+      if wrap == 'list':
+        return tuple(out[0])
+      if wrap == 'dict':
+        return tuple(out['out'][str(i)] for i in range(len(out['out'])))
+      return out
     if k == 'remat':
       fn = spec['fn']
       return nnx.remat(lambda *a: interp(fn, a, c))(*args)
@@ -941,9 +953,62 @@ def gen_falsy_case(rng):
           'aliased': any(sets[i] & sets[j] for i in range(len(sets)) for j in range(i + 1, len(sets)))}
 
 
+def gen_moved_case(rng):
+  """the function creates a new node, MOVES a pre-existing sub-object / Variable of an argument into it (detaching it from
+  every argument by `del` or by re-binding the attribute), optionally updates it, and returns the new node: the moved
+  object is reachable from the results after the call, so it must still be the caller's own object"""
+  pvt = VT_MRO[rng.choice(VT_NAMES)]
+  heap = [{'cls': 'A', 'attrs': [['head', {'r': 1}], ['w', {'r': 3}], ['s', {'s': 'i:3'}]]},
+          {'cls': rng.choice(['B', 'C']), 'attrs': [['w', {'r': 2}]]},
+          {'vt': pvt, 'val': rng.randrange(0, 10), 'md': []}, {'vt': pvt, 'val': rng.randrange(0, 10), 'md': []}]
+  twice = rng.random() < 0.25
+  if twice:
+    heap[0]['attrs'].append(['alias', {'r': 1}])  # a second reference that is removed as well
+  args = [{'r': 0}] + ([{'a': rng.randrange(0, 5)}] if rng.random() < 0.3 else [])
+  g = ProgGen(rng, heap, args)
+  what = rng.choice(['node', 'node', 'var'])
+  key = 'head' if what == 'node' else 'w'
+  g.emit({'op': 'newNode', 'cls': rng.choice(['A', 'B'])})
+  box = len(g.env) - 1
+  g.emit({'op': 'getAttr', 'r': 0, 'k': key})
+  moved = len(g.env) - 1
+  if rng.random() < 0.7:  # update the moved object (before or after moving)
+    if what == 'node':
+      g.emit({'op': 'getAttr', 'r': moved, 'k': 'w'})
+      v = len(g.env) - 1
+    else:
+      v = moved
+    g.emit({'op': 'readVar', 'r': v})
+    g.emit({'op': 'setVar', 'r': v, 'e': {'add': [{'r': len(g.env) - 1}, {'c': rng.randrange(1, 5)}]}})
+  g.emit({'op': 'setAttr', 'r': box, 'k': 'item', 'src': moved})
+  if rng.random() < 0.6:
+    g.emit({'op': 'delAttr', 'r': 0, 'k': key})
+  else:  # re-bind the attribute to a fresh object
+    if what == 'node':
+      g.emit({'op': 'newNode', 'cls': 'B'})
+    else:
+      g.emit({'op': 'newVar', 'vt': pvt, 'e': {'c': 0}, 'md': []})
+    g.emit({'op': 'setAttr', 'r': 0, 'k': key, 'src': len(g.env) - 1})
+  if twice:
+    g.emit({'op': 'delAttr', 'r': 0, 'k': 'alias'})
+  ret = [box]
+  if rng.random() < 0.5:
+    g.emit({'op': 'data', 'e': {'c': 7}})
+    ret = rng.choice([[box, len(g.env) - 1], [len(g.env) - 1, box]])
+  spec = {'kind': 'jit', 'fn': g.fn(ret)}
+  w = rng.choice([None, None, 'list', 'dict'])
+  if w:
+    spec['wrap'] = w
+  # later calls: the attribute is gone (AttributeError, compared) unless it was re-bound; re-binding keeps the history going
+  steps = [{'call': args} for _ in range(rng.choice([1, 2, 3]))]
+  return {'kind': 'history', 'G': {'heap': heap}, 'spec': spec, 'steps': steps, 'moved': True, 'aliased': False}
+
+
 def gen_case(rng, kind=None):
   if kind is None and rng.random() < 0.1:
     return gen_twin_case(rng)
+  if kind is None and rng.random() < 0.08:
+    return gen_moved_case(rng)
   if kind is None and rng.random() < 0.09:
     return gen_falsy_case(rng)
   G = gen_graph(rng)
@@ -1163,7 +1228,7 @@ def check_cases(ctx, drv, cases, stream):
     ctx.count('transform', kind)
     ctx.count('calls_per_history', n_calls)
     ctx.count('aliased_args', bool(case.get('aliased')))
-    ctx.count('stream', stream + ('-twin' if case.get('twin') else '') + ('-falsy' if case.get('falsy') else ''))
+    ctx.count('stream', stream + ('-twin' if case.get('twin') else '') + ('-falsy' if case.get('falsy') else '') + ('-moved' if case.get('moved') else ''))
     for o in set(ops):
       ctx.count('ops_used', o)
     ctx.count('body_ops', min(len(ops), 12))
